@@ -7,6 +7,7 @@ import (
 	"os"
 	"path/filepath"
 	"pgregory.net/rapid"
+	"runtime"
 	"sync/atomic"
 	"time"
 
@@ -124,6 +125,11 @@ func NewSessionWith(m Modes, srvCodec, cliCodec func() rpc.Codec) (*Session, err
 		}
 	}
 	if m.Link == "unix" {
+		if m.Poll && runtime.GOMAXPROCS(0) < 4 {
+			// netpoll's workers spin; on one or two Ps they starve everything else in the process
+			// (observed: unrelated calls of later cases not completing within 10 s)
+			runtime.GOMAXPROCS(4)
+		}
 		s.Srv.SetPoll(m.Poll)
 		s.Addr = SockPath()
 		s.lisRet = make(chan error, 1)
